@@ -39,6 +39,65 @@ def distinct_times(rng, n):
     return out
 
 
+def corpus():
+    """hand-written instantaneous problems aimed at the clauses of C04 (bounded types, invariants, repeated values)"""
+    from unified_planning.shortcuts import (UserType, Fluent, Object, Problem, InstantaneousAction, Variable)
+    from unified_planning.environment import Environment
+    out = []
+
+    def base(label):
+        env = Environment()
+        tm = env.type_manager
+        T = tm.UserType("T")
+        p = Problem(label, env)
+        o1, o2 = Object("o1", T, env), Object("o2", T, env)
+        p.add_objects([o1, o2])
+        return env, env.expression_manager, tm, T, p, o1, o2
+
+    # 1. a bounded counter pushed over its bound while the goal still holds
+    env, em, tm, T, p, o1, o2 = base("bounded-overflow-goal-true")
+    c = Fluent("c", tm.IntType(0, 2), environment=env)
+    p.add_fluent(c, default_initial_value=0)
+    a = InstantaneousAction("inc", _env=env)
+    a.add_increase_effect(c, 1)
+    b = InstantaneousAction("dec", _env=env)
+    b.add_decrease_effect(c, 1)
+    p.add_action(a); p.add_action(b); p.add_goal(em.GE(c, 1))
+    out.append(sx.HandProblem(p, "bounded-overflow-goal-true"))
+    # 2. an invariant violated only in the last state / only in a middle state
+    env, em, tm, T, p, o1, o2 = base("invariant-last-or-middle")
+    f = Fluent("f", tm.BoolType(), environment=env)
+    g = Fluent("g", tm.BoolType(), environment=env)
+    p.add_fluent(f, default_initial_value=True); p.add_fluent(g, default_initial_value=False)
+    a = InstantaneousAction("brk", _env=env)
+    a.add_effect(f, False); a.add_effect(g, True)
+    b = InstantaneousAction("fix", _env=env)
+    b.add_effect(f, True)
+    p.add_action(a); p.add_action(b); p.add_goal(g); p.add_state_invariant(f)
+    out.append(sx.HandProblem(p, "invariant-last-or-middle"))
+    # 3. one instance assigning the same value twice to one ground fluent (syntactically equal values)
+    env, em, tm, T, p, o1, o2 = base("same-value-twice")
+    y = Fluent("y", tm.IntType(0, 5), t=T, environment=env)
+    p.add_fluent(y, default_initial_value=0)
+    a = InstantaneousAction("a", p=T, q=T, _env=env)
+    a.add_effect(y(a.parameter("p")), 3); a.add_effect(y(a.parameter("q")), 3)
+    p.add_action(a); p.add_goal(em.Equals(y(o1), 3))
+    out.append(sx.HandProblem(p, "same-value-twice"))
+    # 4. forall effects whose instances hit one ground fluent: increases accumulate, different values conflict
+    env, em, tm, T, p, o1, o2 = base("forall-same-target")
+    n = Fluent("n", tm.IntType(0, 10), environment=env)
+    w = Fluent("w", tm.IntType(0, 10), t=T, environment=env)
+    p.add_fluent(n, default_initial_value=0); p.add_fluent(w, default_initial_value=1); p.set_initial_value(w(o2), 2)
+    v = Variable("v", T, env)
+    a = InstantaneousAction("sum", _env=env)
+    a.add_increase_effect(n, w(v), forall=(v,))
+    b = InstantaneousAction("set", _env=env)
+    b.add_effect(n, w(v), forall=(v,))
+    p.add_action(a); p.add_action(b); p.add_goal(em.Equals(n, 3))
+    out.append(sx.HandProblem(p, "forall-same-target"))
+    return out
+
+
 def run(ctx):
     import unified_planning as up
     from unified_planning.engines.plan_validator import SequentialPlanValidator, TimeTriggeredPlanValidator
@@ -47,7 +106,7 @@ def run(ctx):
     from unified_planning.engines.results import ValidationResultStatus
     ok_proofs = ctx.check_props(extra=["theories/Corr/Corr_C04.v"])
     rng = ctx.rng
-    nprob = 40 if ctx.quick else 350
+    nprob = 30 if ctx.quick else 350
     maxlen = 2 if ctx.quick else 3
     cap = 40 if ctx.quick else 150
     pre, cases, owners = [], [], []
@@ -55,7 +114,7 @@ def run(ctx):
              "lengths": {}, "time_order_differs_from_list_order": 0, "bounded_fluents": 0, "invariants": 0,
              "dropped_trivially_invalid": 0}
     nontrivial = set()
-    gens = [(hp, None) for hp in sx.corpus_problems()]
+    gens = [(hp, None) for hp in sx.corpus_problems() + corpus()]
     for i in range(nprob):
         gens.append((None, {"max_actions": 2}))
     for pi, (hp, knobs) in enumerate(gens):
